@@ -58,6 +58,10 @@ func (m *Mutex) Unlock() {
 	}
 	m.locked = false
 	m.q.WakeAll()
+	// releasing a lock is a scheduling point too: what a goroutine does right
+	// after a critical section (a value read back outside it, a second section)
+	// can be overtaken by the goroutines it has just let in
+	simrt.Yield()
 }
 
 type RWMutex struct {
@@ -105,6 +109,7 @@ func (m *RWMutex) Unlock() {
 	}
 	m.writer = false
 	m.q.WakeAll()
+	simrt.Yield()
 }
 
 func (m *RWMutex) RLock() {
@@ -147,6 +152,7 @@ func (m *RWMutex) RUnlock() {
 	if m.readers == 0 {
 		m.q.WakeAll()
 	}
+	simrt.Yield()
 }
 
 type rlocker RWMutex
